@@ -219,7 +219,9 @@ func EvalModel(d *Driver, prog string, o EvalModelOpts) ModelResult {
 	}
 	table := map[string]string{}
 	var order []string
-	for round := 0; round < 60; round++ {
+	// a run that misses an oracle answer ends at once (Model/Eval.lean callExt), so there is one
+	// round per distinct library call of the program
+	for round := 0; round < 3000; round++ {
 		var tb strings.Builder
 		for _, q := range order {
 			tb.WriteString("(" + strings.Trim(q, "()") + " => " + table[q] + ") ")
